@@ -63,4 +63,9 @@ s=s.replace("""	case err == idr.ErrNoMatch:
 		return n, nil""",1); open(p,'w').write(s)
 PY
 git diff > /verif/selftest/nomatch_keeps_cursor.diff; git checkout -- .; echo "nomatch_keeps_cursor C02 extensions/omniv21/transform/parse.go" >> /verif/selftest/INDEX
+V=extensions/omniv21/transform/validate.go
+mk tmpl_no_dup_check   C03 $V 's/if strs.HasDup(templateRefStack) {/if len(templateRefStack) > 64 \&\& strs.HasDup(templateRefStack) {/'
+mk tmpl_stack_not_grown C03 $V 's/return ctx.validateDecl(fqdn, declNew, templateRefStack)/return ctx.validateDecl(fqdn, declNew, templateRefStack[:len(templateRefStack)-1])/'
+mk cfarg_same_decl     C03 $V 's/decl.CustomFunc.Args\[i\],$/decl,/'
+mk array_stack_cut     C03 $V 's/strs.BuildFQDN(fqdn, fmt.Sprintf("elem\[%d\]", i+1)), childDecl, templateRefStack)/strs.BuildFQDN(fqdn, fmt.Sprintf("elem[%d]", i+1)), childDecl, templateRefStack[:1])/'
 echo "selftest corpus: $(wc -l < /verif/selftest/INDEX) edits"
